@@ -98,7 +98,8 @@ def resolve(engine, obj):
     except TypeError as e:
         return {"st": "rejected", "msg": str(e)[:160]}
     except Exception as e:  # anything else is a leak
-        return {"st": "leak", "exc": type(e).__name__, "site": _site(e.__traceback__), "msg": str(e)[:160]}
+        return {"st": "leak", "exc": type(e).__name__, "site": _site(e.__traceback__), "msg": str(e)[:160],
+                "bases": [c.__name__ for c in type(e).__mro__ if c not in (object, BaseException, Exception)]}
     return {"st": "ok", "r": r}
 
 
@@ -203,12 +204,19 @@ def _clsname(r):
 
 def eval_key(ev, engine, desc, must=False, src="", prefix=""):
     """Append discrepancies for one spelling; returns the resolved object or None."""
-    obj = S.build(desc)
+    try:
+        obj = S.build(desc)
+    except Exception as e:
+        if "pandera." in canon(desc):
+            ev.add(f"pandera-constructor-raised:{engine}", {"key": desc, "exc": type(e).__name__, "msg": str(e)[:160]})
+            return None
+        raise HarnessError(f"cannot build {desc!r}: {e!r}")
     form = S.keyform(obj)
     ev.labels += [f"{prefix}engine={engine}", f"{prefix}form={form}"]
     res = resolve(engine, obj)
     if res["st"] == "leak":
-        ev.add(f"resolve-leaks:{engine}:{res['exc']}@{res['site']}", {"key": desc, "exc": res["exc"], "msg": res["msg"]})
+        ev.add(f"resolve-leaks:{engine}:{res['exc']}@{res['site']}", {"key": desc, "exc": res["exc"], "bases": res["bases"],
+                                                                        "msg": res["msg"]})
         return None
     if res["st"] == "rejected":
         ev.labels.append(f"{prefix}rejected")
@@ -301,7 +309,7 @@ def eval_key(ev, engine, desc, must=False, src="", prefix=""):
         back = resolve(engine, s)
         if back["st"] == "leak":
             ev.add(f"resolve-leaks:{engine}:{back['exc']}@{back['site']}",
-                   {"key": {"s": s}, "printed_from": desc, "exc": back["exc"], "msg": back["msg"]})
+                   {"key": {"s": s}, "printed_from": desc, "exc": back["exc"], "bases": back["bases"], "msg": back["msg"]})
         rt_ok = back["st"] == "ok" and _eq(back["r"], r) is True and _eq(r, back["r"]) is True and _hash(back["r"]) == h
         if prim:
             if back["st"] == "rejected":
@@ -323,6 +331,8 @@ def eval_registry(case):
         return ev
     ev.labels.append("src=" + case.get("src", "?"))
     r = eval_key(ev, engine, desc, must=case.get("must", False), src=case.get("src", ""))
+    if r is None:
+        return ev
     # abstract class <-> default instance
     obj = S.build(desc)
     if S.keyform(obj) == "abstract-class" and r is not None and "equivalents" in case.get("src", ""):
@@ -366,6 +376,9 @@ def _resolved(engine, desc):
         try:
             obj = S.build(desc)
         except Exception as e:
+            if "pandera." in canon(desc):  # reported by eval_key as pandera-constructor-raised
+                _CACHE[k] = (None, None, None)
+                return _CACHE[k]
             raise HarnessError(f"cannot build {desc!r}: {e!r}")
         res = resolve(engine, obj)
         r = res["r"] if res["st"] == "ok" and _is_datatype(res["r"]) else None
@@ -1057,10 +1070,10 @@ FAMILIES = [
                                          "src=equivalents", "tag-scored", "primitive"]),
     Family("pairs", eval_pairs, enumerate=enum_pairs, shards_quick=8, shards_thorough=12, exhaustive=True, setup=setup,
            required_labels=["pair-diff-class", "pair-equal", "check-true", "check-physical-scored", "pair-same-native-tag"]),
-    Family("params", eval_params, strategy=strat_params, n_quick=700, n_thorough=30000, shards_quick=3, shards_thorough=12,
+    Family("params", eval_params, strategy=strat_params, n_quick=700, n_thorough=15000, shards_quick=3, shards_thorough=12,
            setup=setup, required_labels=["params-same", "params-differ", "fam=pandas/dttz", "fam=polars/datetime",
                                          "fam=pyspark/decimal"]),
-    Family("strings", eval_strings, strategy=strat_strings, n_quick=1500, n_thorough=60000, shards_quick=2,
+    Family("strings", eval_strings, strategy=strat_strings, n_quick=1500, n_thorough=30000, shards_quick=2,
            shards_thorough=12, setup=setup, required_labels=["string-resolves", "string-rejected"]),
     Family("fresh", eval_fresh, enumerate=enum_fresh, shards_quick=1, shards_thorough=1, exhaustive=True),
 ]
@@ -1147,7 +1160,7 @@ def _(family, case, disc):
 def _(family, case, disc):
     d = _det(disc)
     return (disc.kind.startswith("resolve-leaks:pandas:") and disc.kind.endswith("@pandas_engine.dtype")
-            and d.get("exc") in ("ValueError", "NotImplementedError", "AssertionError", "SyntaxError")
+            and set(d.get("bases", [])) & {"ValueError", "NotImplementedError", "AssertionError", "SyntaxError"}
             and isinstance(d.get("key"), dict) and "s" in d["key"])
 
 
@@ -1155,7 +1168,8 @@ def _(family, case, disc):
 def _(family, case, disc):
     d = _det(disc)
     return (disc.kind.startswith("resolve-leaks:numpy:") and disc.kind.endswith("@numpy_engine.dtype")
-            and d.get("exc") in ("ValueError", "SyntaxError") and isinstance(d.get("key"), dict) and "s" in d["key"])
+            and set(d.get("bases", [])) & {"ValueError", "SyntaxError"} and isinstance(d.get("key"), dict)
+            and "s" in d["key"])
 
 
 _RAW_PA_WRONG = ("ArrowBinary", "Bool", "Float64", "STRING")
